@@ -42,11 +42,15 @@ def rule1(ctx, v):
            'single wake site, single block site, single reset', loc=f.loc)
     # last-arriver test: icmp eq c, n_threads-1
     last = []
+    csrc = f.sources(c)
     for ic in f.order:
-        if ic.op == 'icmp' and ic.pred in ('eq', 'ne') and same_value(f, ic.ops[0], c):
-            d = lib.affine(f, ic.ops[1])
-            ld = [k for k in d if k in f.insts and f.insts[k].op == 'load' and f.field(f.insts[k]) == 'myth_barrier.n_threads']
-            if len(ld) == 1 and d.get(ld[0]) == 1 and d.get('', 0) == -1:
+        if ic.op == 'icmp' and ic.pred in ('eq', 'ne'):
+            # any arrangement of  c == n_threads - 1  (c + 1 == n_threads, n_threads - c == 1, ...)
+            d = lib.affine_diff(f, ic.ops[0], ic.ops[1])
+            cs = [k for k in d if k in csrc]
+            ns = lib.load_terms(f, d, 'myth_barrier.n_threads')
+            if len(cs) == 1 and len(ns) == 1 and len([k for k in d if k != '']) == 2 and d[cs[0]] == -d[ns[0]] and \
+                    d.get('', 0) == d[cs[0]]:
                 last.append(ic)
     ctx.ob('C06.1', 'last-arriver test c == n_threads-1', len(last) == 1, 'the last arriver is recognised by the value it replaced',
            loc=f.loc)
